@@ -142,9 +142,11 @@ func c14(args []string) error {
 			if inadd && rng.Intn(2) == 0 {
 				nestUntil, nestType = 1+rng.Intn(3), 1+rng.Intn(3)
 			}
+			nestBudget := 12 // (two such handlers feeding each other would otherwise double the deferred events at every dispatch)
 			record := func(id int) {
 				newID := 0
-				if nestUntil != 0 {
+				if nestUntil != 0 && nestBudget > 0 {
+					nestBudget--
 					newID = nextE
 					nextE++
 					delay(nestUntil, mkEvent(nestType, newID))
